@@ -365,6 +365,116 @@ func TestC04Bool(t *testing.T) {
 	}
 }
 
+// ---- aggregate fields: the statement with and without the rewrite ------------
+
+type c04AggrCase struct {
+	Const *lib.Node `json:"const"` // constant Boolean the simplification acts on
+	Aggr  *lib.Node `json:"aggr"`  // Boolean operand that holds an aggregate function
+	Op    string    `json:"op"`
+	Left  bool      `json:"left"` // the constant is the left operand
+	Wrap  bool      `json:"wrap"` // the whole field inside str()
+	Query string    `json:"query"`
+}
+
+func init() {
+	registerReplay("c04aggr", func(c *c04AggrCase) string { m, _ := checkC04Aggr(c); return m })
+}
+
+// checkC04Aggr: `C op A` with a constant C that lets the simplification drop
+// or keep A, A holding an aggregate function. The same field with C written
+// as a predicate of the pair that the rewrite cannot fold (strlen(key) >= 0
+// for true, strlen(key) < 0 for false) is the statement "without the rewrite":
+// both must show the same rows (one per group).
+func checkC04Aggr(c *c04AggrCase) (msg string, nontrivial bool) {
+	cv, err := lib.Eval(c.Const, &lib.Env{K: "k", V: "0"})
+	if err != nil {
+		return "", false
+	}
+	truth, ok := cv.(bool)
+	if !ok {
+		return "", false
+	}
+	opaque := lib.Bin(">=", lib.Call("strlen", lib.Key()), lib.Int(0))
+	if !truth {
+		opaque = lib.Bin("<", lib.Call("strlen", lib.Key()), lib.Int(0))
+	}
+	mk := func(k *lib.Node) string {
+		e := lib.Bin(c.Op, k, c.Aggr.Clone())
+		if !c.Left {
+			e = lib.Bin(c.Op, c.Aggr.Clone(), k)
+		}
+		if c.Wrap {
+			e = lib.Call("str", e)
+		}
+		st := &lib.Stmt{Kind: "select", Fields: []lib.SelField{{E: e}}, Where: lib.Bin("!=", lib.Key(), lib.Str("zz"))}
+		return st.Render()
+	}
+	q, plain := mk(c.Const.Clone()), mk(opaque)
+	c.Query = q
+	for _, cfg := range []lib.Cfg{{Mode: "row", Batch: 32, Cache: true}, {Mode: "batch", Batch: 2, Cache: true}} {
+		ra := lib.Run(q, lib.NewStore(c04Pairs), len(c04Pairs), cfg)
+		rb := lib.Run(plain, lib.NewStore(c04Pairs), len(c04Pairs), cfg)
+		if rb.BuildErr != nil || rb.Failed() {
+			return "", false // the comparison statement is not available
+		}
+		if ra.BuildErr != nil {
+			return fmt.Sprintf("%q is refused (%v) although the same field with the constant written as %s is answered: %s", q, ra.BuildErr, opaque.Render(), lib.ShowRows(rb.Rows)), true
+		}
+		if ra.Failed() {
+			return fmt.Sprintf("%q [%s]: %s; with the constant written as %s: %s", q, cfg, ra.Describe(), opaque.Render(), lib.ShowRows(rb.Rows)), true
+		}
+		if !lib.EqualRows(ra.Rows, rb.Rows) {
+			return fmt.Sprintf("%q [%s] returns %s; with the constant written as %s (no rewrite possible) it returns %s", q, cfg, lib.ShowRows(ra.Rows), opaque.Render(), lib.ShowRows(rb.Rows)), true
+		}
+	}
+	return "", true
+}
+
+// TestC04AggrFields: constant Booleans x operands holding an aggregate x
+// & | and or x either side x bare / inside str().
+func TestC04AggrFields(t *testing.T) {
+	lib.Stats.Exhaustive = true
+	consts := []*lib.Node{
+		lib.Bool(true), lib.Bool(false), lib.Bin("=", lib.Int(1), lib.Int(1)), lib.Bin("=", lib.Int(1), lib.Int(2)),
+		lib.Bin(">", lib.Float("1.5"), lib.Int(1)), lib.Bin("<", lib.Str("b"), lib.Str("a")),
+		lib.Call("is_int", lib.Str("12")), lib.Not(lib.Bin("=", lib.Int(1), lib.Int(1))),
+	}
+	cnt := func() *lib.Node { return lib.Call("count", lib.Int(1)) }
+	aggrs := []*lib.Node{
+		lib.Bin(">", cnt(), lib.Int(100)),
+		lib.Bin("<=", cnt(), lib.Int(100)),
+		lib.Not(lib.Bin(">", cnt(), lib.Int(5))),
+		lib.Not(lib.Not(lib.Bin(">", lib.Call("sum", lib.Call("strlen", lib.Key())), lib.Int(3)))),
+		lib.Bin("=", lib.Call("str", cnt()), lib.Str("7")),
+		lib.Call("is_int", lib.Call("str", lib.Call("max", lib.Call("strlen", lib.Key())))),
+		lib.In(cnt(), lib.Int(7), lib.Int(8)),
+		lib.Between(lib.Call("min", lib.Call("strlen", lib.Key())), lib.Int(0), lib.Int(1)),
+		lib.Bin("&", lib.Bin(">", cnt(), lib.Int(1)), lib.Bin("=", lib.Int(1), lib.Int(1))),
+	}
+	idx := 0
+	for _, k := range consts {
+		for _, a := range aggrs {
+			for _, op := range []string{"&", "|", "and", "or"} {
+				for _, left := range []bool{true, false} {
+					for _, wrap := range []bool{false, true} {
+						idx++
+						if !lib.Mine(idx) {
+							continue
+						}
+						c := &c04AggrCase{Const: k, Aggr: a, Op: op, Left: left, Wrap: wrap}
+						lib.Journal("C04", "c04aggr", c)
+						msg, nt := checkC04Aggr(c)
+						lib.Stats.EnumCase(nt, []string{"aggregate-field", "aggregate-field-" + op}, func() any { return c.Query })
+						if msg != "" {
+							fail(t, "C04", "c04aggr", msg, c)
+						}
+					}
+				}
+			}
+		}
+	}
+}
+
 // TestC04Sampled: deeper typed expressions with constant sub-trees.
 func TestC04Sampled(t *testing.T) {
 	rapid.Check(t, func(rt *rapid.T) {
